@@ -1892,6 +1892,8 @@ seq_t dtw_warping_paths_affinity_ndim(seq_t *wps,
     seq_t dtw_prev;
 
     DTWWps p = dtw_wps_parts(l1, l2, settings);
+    // The penalty is subtracted from affinities, it is not expressed in the (squared) distance domain
+    p.penalty = settings->penalty;
 
     idx_t ri, ci, min_ci, max_ci, wpsi, wpsi_start;
 
@@ -2225,6 +2227,8 @@ seq_t dtw_warping_paths_affinity_ndim_euclidean(seq_t *wps,
     seq_t dtw_prev;
 
     DTWWps p = dtw_wps_parts(l1, l2, settings);
+    // The penalty is subtracted from affinities, it is not expressed in the (squared) distance domain
+    p.penalty = settings->penalty;
 
     idx_t ri, ci, min_ci, max_ci, wpsi, wpsi_start;
 
